@@ -62,6 +62,7 @@ def plan(tier, seed):
     for n in ["blatz_ko", "extended_tube", "miehe_goektepe_lulei", "mooney_rivlin", "neo_hooke", "storakers", "third_order_deformation", "van_der_waals", "yeoh"]:
         cases.append(dict(key=f"pair/jax-tt/{n}", kind="jaxtt", name=n, seed=seed, tier=tier, cost=8))
     cases.append(dict(key="pair/jax-tt/morph", kind="morph", seed=seed, tier=tier, cost=10))
+    cases.append(dict(key="pair-history/jax-tt/morph_representative_directions", kind="morph-rd-history", seed=seed, tier=tier, cost=25))
     cases.append(dict(key="pair/hand-tt/NeoHooke", kind="handnh", seed=seed, tier=tier, cost=2))
     cases.append(dict(key="pair/hand-tt/OgdenRoxburgh", kind="handor", seed=seed, tier=tier, cost=3))
     cases.append(dict(key="pair/linear-elastic", kind="linear", seed=seed, tier=tier))
@@ -131,7 +132,7 @@ def run(case):
     c = Ctx(case["key"])
     kind = case["kind"]
     seed, tier = case["seed"], case["tier"]
-    if kind in ("jaxtt", "morph", "moduli") and (kind != "moduli" or case["backend"] == "jax"):
+    if kind in ("jaxtt", "morph", "moduli", "morph-rd-history") and (kind != "moduli" or case["backend"] == "jax"):
         import jax
 
         jax.config.update("jax_enable_x64", True)
@@ -168,6 +169,53 @@ def run(case):
         c.cmp("after-call/stress", "MORPH stress from a common non-virgin state, tensortrax vs jax", a.gradient([F, sva])[0], b.gradient([F, sva])[0], 1e-2, labels)
         c.trans += 7
         return c.result(dict(case=case["key"], lattice_points=n))
+    if kind == "morph-rd-history":
+        # stateful twins driven through every load history without repeated amplitude ({0.4, 1.0, 0.7}, length <= 3) with their own state
+        # variables: stress, elasticity and state must agree after every increment, and the first 21 state variables are
+        # the running maxima of the Tresca invariant per direction (checker-side, numpy)
+        pm = [0.011, 0.408, 0.421, 6.85, 0.0056, 5.54, 5.84, 0.117]
+        nsv = 84
+        a = C.tensortrax.Material(C.tensortrax.models.lagrange.morph_representative_directions, p=pm, nstatevars=nsv)
+        b = CJ.Material(CJ.models.lagrange.morph_representative_directions, p=pm, nstatevars=nsv)
+        H = np.zeros((3, 3, 3, 1))
+        H[..., 0, 0] = [[1.0, 0.0, 0.0], [0.0, -0.3, 0.0], [0.0, 0.0, -0.3]]
+        H[..., 1, 0] = [[0.0, 1.0, 0.0], [0.0, 0.0, 0.0], [0.0, 0.0, 0.0]]
+        H[..., 2, 0] = 0.6 * zoo.offarr(seed, 960, (3, 3)) * 2 + np.diag([0.3, -0.1, 0.0])
+        eye = np.eye(3).reshape(3, 3, 1, 1)
+        rdir = fem.quadrature.BazantOh(n=21).points
+
+        def tresca(F):
+            Cg = np.einsum("ki...,kj...->ij...", F, F)
+            J = np.linalg.det(np.moveaxis(F, (0, 1), (-2, -1)))
+            st = J ** (-1 / 3) * np.sqrt(np.einsum("ai,ij...,aj->a...", rdir, Cg, rdir))
+            return np.abs(st**2 - 1 / st)
+
+        amps = (0.4, 1.0, 0.7)
+        nh = 0
+        for depth in (1, 2, 3):
+            # (no amplitude is visited twice: a direction that returns EXACTLY to its stored maximum sits on the kink of
+            #  max(CT, CTS), where the two backends legitimately return different one-sided tangents)
+            for hist in itertools.permutations(amps, depth):
+                sva, svb = np.zeros((nsv, 3, 1)), np.zeros((nsv, 3, 1))
+                cts = np.zeros((21, 3, 1))
+                for step, amp in enumerate(hist):
+                    F = eye + amp * H
+                    Aa, Ab = a.hessian([F, sva])[0], b.hessian([F, svb])[0]
+                    (Pa, sva2), (Pb, svb2) = a.gradient([F, sva]), b.gradient([F, svb])
+                    c.trans += 4
+                    if step == len(hist) - 1:
+                        lab = "history=" + ">".join(map(str, hist))
+                        c.cmp(lab + "/stress", "stress of the tensortrax and the jax model after this load history", Pa, Pb, 1e-6)
+                        c.cmp(lab + "/elasticity", "elasticity of the tensortrax and the jax model after this load history", Aa, Ab, 1e-6)
+                        cts = np.maximum(cts, tresca(F))
+                        c.cmp(lab + "/state/tt", "stored maxima of the Tresca invariant per direction (tensortrax) vs the running maximum over the history", np.asarray(sva2)[:21], cts, 1e-9)
+                        c.cmp(lab + "/state/jax", "stored maxima of the Tresca invariant per direction (jax) vs the running maximum over the history", np.asarray(svb2)[:21], cts, 1e-9)
+                    else:
+                        cts = np.maximum(cts, tresca(F))
+                    sva, svb = np.asarray(sva2, float), np.asarray(svb2, float)
+                nh += 1
+        c.outcomes.add(f"histories={nh}")
+        return c.result(dict(case=case["key"], histories=nh, points=3))
     if kind == "handnh":
         lat = lattice("all", seed, tier)
         labels = [l for l, _ in lat]
